@@ -551,6 +551,83 @@ def _program_wire(case):
     return [2, case['introspection'], acts, intrs]
 
 
+# ------------------------------------------------------------------ relations made by add_view (view->route, permission->view, template->view)
+def gen_viewrels(rng):
+    n = rng.choice([1, 2, 2, 3, 4])
+    shared = rng.random() < 0.6
+    views = []
+    for i in range(n):
+        views.append({'name': 'v%d' % i, 'route': rng.random() < 0.5, 'perm': (0 if shared else i) if rng.random() < 0.8 else None,
+                      'tmpl': rng.random() < 0.5})
+    return {'kind': 'viewrels', 'views': views, 'two_commits': rng.random() < 0.3}
+
+
+def _run_viewrels(case):
+    from pyramid.config import Configurator
+    c = Configurator(autocommit=False)
+    c.add_renderer('.vt', lambda info: (lambda value, system: 'x'))
+    c.add_route('r0', '/r0')
+    for i, v in enumerate(case['views']):
+        kw = {'name': v['name']}
+        if v['route']:
+            kw['route_name'] = 'r0'
+        if v['perm'] is not None:
+            kw['permission'] = 'perm%d' % v['perm']
+        if v['tmpl']:
+            kw['renderer'] = 't%d.vt' % i
+        c.add_view(lambda ctx, req: {}, **kw)
+        if case['two_commits'] and i == 0:
+            c.commit()
+    c.commit()
+    intro = c.introspector
+    out = []
+
+    def ident(i):
+        cn = i.category_name
+        if cn == 'views':
+            return ['views', i['name']]
+        if cn == 'permissions':
+            return ['permissions', i['value']]
+        if cn == 'templates':
+            return ['templates', i['name']]
+        if cn == 'routes':
+            return ['routes', i['name']]
+        if cn == 'renderer factories':
+            return ['renderer factories', i['name']]
+        return [cn, '?']
+    for cn in ('views', 'permissions', 'templates'):
+        for e in intro.get_category(cn) or []:
+            i = e['introspectable']
+            if cn == 'views' and not str(i['name']).startswith('v'):
+                continue
+            out.append([ident(i), sorted(ident(r) for r in e['related'])])
+    return sorted(out)
+
+
+def _viewrels_spec(case):
+    exp = {}
+
+    def link(a, b):
+        exp.setdefault(tuple(a), set()).add(tuple(b))
+        exp.setdefault(tuple(b), set()).add(tuple(a))
+    for i, v in enumerate(case['views']):
+        me = ['views', v['name']]
+        exp.setdefault(tuple(me), set())
+        if v['route']:
+            link(me, ['routes', 'r0'])
+        if v['perm'] is not None:
+            link(me, ['permissions', 'perm%d' % v['perm']])
+        if v['tmpl']:
+            t = ['templates', 't%d.vt' % i]
+            link(me, t)
+            link(t, ['renderer factories', '.vt'])
+    out = []
+    for k, vs in exp.items():
+        if k[0] in ('views', 'permissions', 'templates'):
+            out.append([list(k), sorted(list(x) for x in vs)])
+    return sorted(out)
+
+
 # ------------------------------------------------------------------ engine API
 def generate(rng, tier, n):
     # directive scenarios first (finite), then op sequences
@@ -559,6 +636,9 @@ def generate(rng, tier, n):
         for variant in (0, 1):
             yield {'kind': 'directive', 'name': name, 'variant': variant}
     for j in range(n):
+        if j % 10 == 9:
+            yield gen_viewrels(rng)
+            continue
         yield gen_program(rng) if j % 3 == 0 else gen_relcase(rng) if j % 3 == 1 else gen_ops(rng)
 
 
@@ -566,6 +646,10 @@ def valid(case):
     try:
         if case['kind'] == 'tables':
             return case == {'kind': 'tables'}
+        if case['kind'] == 'viewrels':
+            return len(case['views']) >= 1 and all(v['name'] == 'v%d' % i and isinstance(v['route'], bool) and isinstance(v['tmpl'], bool)
+                                                   and (v['perm'] is None or isinstance(v['perm'], int))
+                                                   for i, v in enumerate(case['views'])) and isinstance(case['two_commits'], bool)
         if case['kind'] == 'directive':
             return case['name'] in scenarios() and case['variant'] in (0, 1)
         if case['kind'] == 'program':
@@ -614,7 +698,7 @@ def to_wire(case):
         return [0, _ops_wire(case['ops'])]
     if case['kind'] == 'program':
         return _program_wire(case)
-    return [1]
+    return [1]          # tables / directive / viewrels: the model side is the regenerated tables
 
 
 _TABLE = {}
@@ -634,6 +718,8 @@ def from_wire(case, raw):
         return {'model': raw, 'spec': None}
     if case['kind'] == 'tables':
         return {'model': ['documented-but-not-recorded', sorted(raw[2])], 'spec': ['documented-but-not-recorded', []]}
+    if case['kind'] == 'viewrels':
+        return {'model': None, 'spec': _viewrels_spec(case)}
     if case['kind'] == 'program':
         if raw == [['bad']] or len(raw) != 2 or raw[1] in (['K'], ['V']):
             return {'model': ['MODEL', raw], 'spec': None}
@@ -644,7 +730,7 @@ def from_wire(case, raw):
 
 
 def equiv(case, obs, model):
-    return case['kind'] == 'directive'      # the directive stream is judged by spec_holds against the table
+    return case['kind'] in ('directive', 'viewrels')      # the directive stream is judged by spec_holds against the table
 
 
 def run_impl(case):
@@ -654,6 +740,8 @@ def run_impl(case):
         return _run_ops(case['ops'])
     if case['kind'] == 'program':
         return _run_program(case)
+    if case['kind'] == 'viewrels':
+        return _run_viewrels(case)
     if case['kind'] == 'tables':
         import harness.common.build as B
         doc = X.documented(os.path.dirname(B.SRC))
@@ -671,7 +759,7 @@ def spec_holds(case, obs, spec):
     that argument, and every key named like a directive argument carries that argument (the property)."""
     if case['kind'] == 'ops':
         return _ops_spec(case, obs)
-    if case['kind'] in ('tables', 'program'):
+    if case['kind'] in ('tables', 'program', 'viewrels'):
         return obs == spec
     if obs and obs[0] == 'HARNESS-EXC':
         return False
@@ -754,6 +842,8 @@ def classify(case, obs, spec):
 def nontrivial(case, obs):
     if case['kind'] == 'tables':
         return True
+    if case['kind'] == 'viewrels':
+        return len(case['views']) >= 2
     if case['kind'] == 'program':
         return len(case['nodes']) > 1 and len(case['stmts']) >= 2
     if case['kind'] == 'directive':
@@ -765,6 +855,8 @@ def nontrivial(case, obs):
 def kinds(case, obs):
     if case['kind'] == 'tables':
         return ['tables']
+    if case['kind'] == 'viewrels':
+        return ['viewrels', 'viewrels:%d-views' % len(case['views'])] + (['viewrels:shared-permission'] if len({v['perm'] for v in case['views'] if v['perm'] is not None}) < sum(1 for v in case['views'] if v['perm'] is not None) else [])
     if case['kind'] == 'program':
         out = ['program', 'program:introspection-%s' % ('on' if case['introspection'] else 'off'),
                'program:nodes-%d' % len(case['nodes'])]
